@@ -514,6 +514,25 @@ VARIANTS = [
         {"file": LOGR, "old": "    _MESSAGE_META_ATTRS = {",
          "new": "    @staticmethod\n    def _strong_deserializer(message):\n        ref = message.deserializer\n"
                 "        return ref() if ref else None\n\n    _MESSAGE_META_ATTRS = {"}]},
+    # ---- audit round (anchored on the fixed text: inapplicable until the fixes are committed)
+    {"name": "R14 TupleCoord loses its __ne__ (reverts audit fix C18#1)", "file": DTYPES, "expect": "C18.R14",
+     "old": "    def __ne__(self, other):\n        # The recordclass base brings its own __ne__, which knows nothing of the __eq__ above\n"
+            "        return not self.__eq__(other)\n\n", "new": ""},
+    {"name": "P R14 __ne__ spelled through ==", "file": DTYPES, "expect": "silent",
+     "old": "        # The recordclass base brings its own __ne__, which knows nothing of the __eq__ above\n        return not self.__eq__(other)\n",
+     "new": "        # The recordclass base brings its own __ne__, which knows nothing of the __eq__ above\n        return not (self == other)\n"},
+    {"name": "R14 one ordering operator zips without the length check (reverts part of audit fix C18#4)", "file": DTYPES, "expect": "C18.R14",
+     "old": "        return all(x < y for x, y in self._ordering_pairs(other))", "new": "        return all(x < y for x, y in zip(self, other))"},
+    {"name": "P R14 length check on materialised operands", "file": DTYPES, "expect": "silent",
+     "old": "        if len(other) != len(self):\n            raise TypeError(f\"Can't order {self!r} against {other!r}\")\n        return zip(self, other)",
+     "new": "        theirs = tuple(other)\n        if len(theirs) != len(tuple(self)):\n            raise TypeError(f\"Can't order {self!r} against {other!r}\")\n"
+            "        return zip(self, theirs)"},
+    {"name": "R4 subfield decode only guarded against KeyError (reverts audit fix C18#5)", "file": LOGR, "expect": "C18.R4",
+     "old": "                            deserialized = block.deserialize_var(var_name)\n                        except Exception:",
+     "new": "                            deserialized = block.deserialize_var(var_name)\n                        except KeyError:"},
+    {"name": "P R4 subfield decode guard names KeyError and Exception", "file": LOGR, "expect": "silent",
+     "old": "                            deserialized = block.deserialize_var(var_name)\n                        except Exception:",
+     "new": "                            deserialized = block.deserialize_var(var_name)\n                        except (KeyError, Exception):"},
     # ---- documented limits
     {"name": "X bare selector matches on the raw value instead of truthiness", "file": LOGR, "expect": "miss",
      "old": "                return bool(val)\n", "new": "                return val is not None\n"},
